@@ -761,6 +761,8 @@ class CompositeEnvelopeContainer:
             Other composite envelope container
         """
         assert isinstance(other, CompositeEnvelopeContainer)
+        for state in other.states:
+            state.container = self
         self.states.extend(other.states)
         self.envelopes.extend(e for e in other.envelopes if e not in self.envelopes)
 
@@ -854,6 +856,9 @@ class CompositeEnvelope:
             CompositeEnvelope._instances[self.uid] = []
         CompositeEnvelope._instances[self.uid].append(self)
         self.update_composite_envelope_pointers()
+        # Product spaces taken over from merged composite envelopes changed their position
+        ce_container.composite_uid = self.uid
+        ce_container.update_all_indices()
 
     def __repr__(self) -> str:
         return (
